@@ -228,7 +228,7 @@ theorem no_estep {code : Code} {f g : Fiber} (h : EStep code f g)
       OP_REPEAT_START_GREEDY, OP_REPEAT_START_UNGREEDY, OP_REPEAT_END_GREEDY, OP_REPEAT_END_UNGREEDY, OP_REPEAT_ANY_GREEDY,
       OP_REPEAT_ANY_UNGREEDY] at * <;> omega
 
-theorem estep_split {code : Code} {f g : Fiber} (h : EStep code f g) (hop : u8 code f.ip = OP_SPLIT_A) :
+theorem estep_split {code : Code} {f g : Fiber} (h : EStep code f g) (hop : u8 code f.ip = OP_SPLIT_A ∨ u8 code f.ip = OP_SPLIT_B) :
     g = { f with ip := f.ip + 4 } ∨ g = { f with ip := addOff f.ip (i16 code (f.ip + 2)) } := by
   cases h with
   | splitNext _ => exact .inl rfl
@@ -243,6 +243,18 @@ theorem estep_jump {code : Code} {f g : Fiber} (h : EStep code f g) (hop : u8 co
   | _ => rename_i h1; simp only [OP_SPLIT_A, OP_SPLIT_B, OP_JUMP, OP_REPEAT_START_GREEDY, OP_REPEAT_START_UNGREEDY, OP_REPEAT_END_GREEDY,
       OP_REPEAT_END_UNGREEDY, OP_REPEAT_ANY_GREEDY, OP_REPEAT_ANY_UNGREEDY] at *; omega
 
+
+/-- ε-steps only happen at control instructions -/
+def isCtl (op : Nat) : Prop :=
+  op = OP_SPLIT_A ∨ op = OP_SPLIT_B ∨ op = OP_JUMP ∨ op = OP_REPEAT_START_GREEDY ∨ op = OP_REPEAT_START_UNGREEDY ∨
+  op = OP_REPEAT_END_GREEDY ∨ op = OP_REPEAT_END_UNGREEDY
+
+theorem estep_ctl {code : Code} {f g : Fiber} (h : EStep code f g) : isCtl (u8 code f.ip) := by
+  unfold isCtl
+  cases h with
+  | splitNext h1 | splitJmp h1 | repStartEnter h1 | repStartSkip h1 _ | repEndLoop h1 _ | repEndExit h1 _ =>
+    rcases h1 with h1 | h1 <;> rw [h1] <;> decide
+  | jump h1 => rw [h1]; decide
 
 theorem no_astep {code : Code} {f g : Fiber} {st : Bool} (h : AStep code f g st)
     (hop : ¬ (u8 code f.ip = OP_REPEAT_ANY_GREEDY ∨ u8 code f.ip = OP_REPEAT_ANY_UNGREEDY)) : False := by
@@ -364,30 +376,35 @@ def StepOK (e : Env) (r : Re) (a b : Nat) (K : Lang) (f : Fiber) (m : Mode) : Pr
       (Valid r a (advance e.code f).ip (advance e.code f).rc (modeCons e.code f) ∨ AtEnd b (advance e.code f) (modeCons e.code f)) ∧
       ∀ q', lang (specFlags e.fl) e.buf r a K (advance e.code f).ip (advance e.code f).rc (modeCons e.code f) (e.start + bm + 1) q' →
         lang (specFlags e.fl) e.buf r a K f.ip f.rc m (e.start + bm) q') ∧
-  (isConsuming (u8 e.code f.ip) = false → u8 e.code f.ip = OP_SPLIT_A ∨ u8 e.code f.ip = OP_JUMP)
+  (u8 e.code f.ip ≠ OP_MATCH) ∧
+  (∀ bm, isConsuming (u8 e.code f.ip) = false → zeroWidthOk e bm (u8 e.code f.ip) = true →
+      (Valid r a (f.ip + 1) f.rc .run ∨ AtEnd b { f with ip := f.ip + 1 } .run) ∧
+      ∀ q', lang (specFlags e.fl) e.buf r a K (f.ip + 1) f.rc .run (e.start + bm) q' →
+        lang (specFlags e.fl) e.buf r a K f.ip f.rc m (e.start + bm) q')
+
+theorem zw_split_false (e : Env) (bm : Nat) {op : Nat} (h : op = OP_SPLIT_A ∨ op = OP_SPLIT_B ∨ op = OP_JUMP) : zeroWidthOk e bm op = false := by
+  rcases h with h | h | h <;> subst h <;>
+    simp [zeroWidthOk, OP_SPLIT_A, OP_SPLIT_B, OP_JUMP, OP_WORD_BOUNDARY, OP_NON_WORD_BOUNDARY, OP_MATCH_AT_START, OP_MATCH_AT_END]
 
 theorem advance_ip {code : Code} {f : Fiber} {op : Nat} (hop : u8 code f.ip = op)
     (hn : ¬ (op = OP_REPEAT_ANY_GREEDY ∨ op = OP_REPEAT_ANY_UNGREEDY)) : advance code f = { f with ip := f.ip + sizeOfInstr op } := by
   unfold advance
   rw [hop, if_neg hn]
 
-theorem leaf_step (e : Env) (h : FwdByte e) (r : Re) (a n : Nat) (K : Lang) (f : Fiber) (m : Mode) (op : Nat)
+theorem leaf_step (e : Env) (r : Re) (a n : Nat) (K : Lang) (f : Fiber) (m : Mode) (op : Nat)
     (hip : f.ip = a) (hrc : f.rc = -1) (hmode : m = .run) (hop : u8 e.code a = op)
-    (hleaf : op = OP_LITERAL ∨ op = OP_NOT_LITERAL ∨ op = OP_MASKED_LITERAL ∨ op = OP_MASKED_NOT_LITERAL ∨ op = OP_ANY)
-    (hsz : sizeOfInstr op = n) (hn : 0 < n)
+    (hcons : isConsuming op = true) (hnctl : ¬ isCtl op) (hnany : ¬ (op = OP_REPEAT_ANY_GREEDY ∨ op = OP_REPEAT_ANY_UNGREEDY))
+    (hnm : op ≠ OP_MATCH) (hsz : sizeOfInstr op = n) (hn : 0 < n)
     (hlang : ∀ ip rc md, lang (specFlags e.fl) e.buf r a K ip rc md =
       if ip = a then (fun q q' => ∃ t, Re.Matches (specFlags e.fl) e.buf r q t ∧ K t q') else K)
     (hm : ∀ bm, consumeOk e bm f = true → Re.Matches (specFlags e.fl) e.buf r (e.start + bm) (e.start + bm + 1)) :
     StepOK e r a (a + n) K f m := by
   have hopf : u8 e.code f.ip = op := by rw [hip]; exact hop
-  have hnany : ¬ (op = OP_REPEAT_ANY_GREEDY ∨ op = OP_REPEAT_ANY_UNGREEDY) := by
-    rcases hleaf with h | h | h | h | h <;> subst h <;> simp [OP_LITERAL, OP_NOT_LITERAL, OP_MASKED_LITERAL,
-      OP_MASKED_NOT_LITERAL, OP_ANY, OP_REPEAT_ANY_GREEDY, OP_REPEAT_ANY_UNGREEDY]
-  refine ⟨?_, ?_, ?_, ?_⟩
+  refine ⟨?_, ?_, ?_, ?_, ?_⟩
   · intro g hg
     exfalso
-    apply no_estep hg
-    rw [hopf]; exact hleaf
+    apply hnctl
+    rw [← hopf]; exact estep_ctl hg
   · intro g st hg
     exfalso
     exact no_astep hg (by rw [hopf]; exact hnany)
@@ -403,12 +420,9 @@ theorem leaf_step (e : Env) (h : FwdByte e) (r : Re) (a n : Nat) (K : Lang) (f :
     rw [if_neg hne] at hq'
     rw [hip, hlang, if_pos rfl]
     exact ⟨_, hm bm hc, hq'⟩
-  · intro hnc
-    exfalso
-    rw [hopf] at hnc
-    rcases hleaf with h | h | h | h | h <;> subst h <;> simp [isConsuming, OP_LITERAL, OP_NOT_LITERAL, OP_MASKED_LITERAL,
-      OP_MASKED_NOT_LITERAL, OP_ANY, OP_REPEAT_ANY_GREEDY, OP_REPEAT_ANY_UNGREEDY, OP_CLASS, OP_WORD_CHAR, OP_NON_WORD_CHAR, OP_SPACE,
-      OP_NON_SPACE, OP_DIGIT, OP_NON_DIGIT] at hnc
+  · rw [hopf]; exact hnm
+  · intro bm hnc
+    rw [hopf, hcons] at hnc; simp at hnc
 
 /-- a spinning REPEAT_ANY accepts one character -/
 theorem consume_anyrep {e : Env} (h : FwdByte e) {bm : Nat} {f : Fiber}
@@ -452,7 +466,7 @@ theorem jump_step (e : Env) (h : FwdByte e) (a lo hi : Nat) (g : Bool) (K : Lang
     rcases hst with ⟨_, h1⟩ | ⟨_, h1, h2⟩
     · rw [h1, rc0_neg]; omega
     · have := rc0_pos h1; omega
-  refine ⟨?_, ?_, ?_, ?_⟩
+  refine ⟨?_, ?_, ?_, ?_, ?_⟩
   · intro g' hg
     exact absurd hg (fun hh => no_estep_any hh hopf)
   · intro g' stop hg hmw
@@ -511,7 +525,8 @@ theorem jump_step (e : Env) (h : FwdByte e) (a lo hi : Nat) (g : Bool) (K : Lang
       obtain ⟨j, t, h1, h2, hp, hk⟩ := hq
       have hk1 : 1 ≤ rc0 f.rc := by have := rc0_pos hrc1.1; omega
       exact ⟨j + 1, t, by omega, by omega, by omega, .cons (consume_anyrep h hopf hc) hp, hk⟩
-  · intro hnc
+  · rcases hopf with h1 | h1 <;> rw [h1] <;> simp [OP_REPEAT_ANY_GREEDY, OP_REPEAT_ANY_UNGREEDY, OP_MATCH]
+  · intro bm hnc
     exfalso
     rcases hopf with h1 | h1 <;> rw [h1] at hnc <;> simp [isConsuming, OP_REPEAT_ANY_GREEDY, OP_REPEAT_ANY_UNGREEDY, OP_ANY] at hnc
 
@@ -521,30 +536,27 @@ theorem seg_step (e : Env) (h : FwdByte e) {r : Re} {a b : Nat} (hs : Seg e.code
   | @lit a b h1 h2 =>
     intro K f md hst
     simp only [Valid] at hst
-    exact leaf_step e h (.lit b) a 2 K f md OP_LITERAL hst.1 hst.2.1 hst.2.2 h1 (.inl rfl) (by simp [sizeOfInstr, OP_LITERAL, OP_NOT_LITERAL]) (by omega)
+    exact leaf_step e (.lit b) a 2 K f md OP_LITERAL hst.1 hst.2.1 hst.2.2 h1 (by decide) (by unfold isCtl; decide) (by decide) (by decide) (by decide) (by omega)
       (fun ip rc md => by simp [lang]) (fun bm hc => consume_lit h (by rw [hst.1]; exact h1) (by rw [hst.1]; exact h2) hc)
   | @notLit a b h1 h2 =>
     intro K f md hst
     simp only [Valid] at hst
-    exact leaf_step e h (.notLit b) a 2 K f md OP_NOT_LITERAL hst.1 hst.2.1 hst.2.2 h1 (.inr (.inl rfl)) (by simp [sizeOfInstr, OP_LITERAL, OP_NOT_LITERAL]) (by omega)
+    exact leaf_step e (.notLit b) a 2 K f md OP_NOT_LITERAL hst.1 hst.2.1 hst.2.2 h1 (by decide) (by unfold isCtl; decide) (by decide) (by decide) (by decide) (by omega)
       (fun ip rc md => by simp [lang]) (fun bm hc => consume_notLit h (by rw [hst.1]; exact h1) (by rw [hst.1]; exact h2) hc)
   | @masked a v m h1 h2 h3 =>
     intro K f md hst
     simp only [Valid] at hst
-    exact leaf_step e h (.masked v m) a 3 K f md OP_MASKED_LITERAL hst.1 hst.2.1 hst.2.2 h1 (.inr (.inr (.inl rfl)))
-      (by simp [sizeOfInstr, OP_LITERAL, OP_NOT_LITERAL, OP_MASKED_LITERAL, OP_MASKED_NOT_LITERAL]) (by omega)
+    exact leaf_step e (.masked v m) a 3 K f md OP_MASKED_LITERAL hst.1 hst.2.1 hst.2.2 h1 (by decide) (by unfold isCtl; decide) (by decide) (by decide) (by decide) (by omega)
       (fun ip rc md => by simp [lang]) (fun bm hc => consume_masked h (by rw [hst.1]; exact h1) (by rw [hst.1]; exact h2) (by rw [hst.1]; exact h3) hc)
   | @maskedNot a v m h1 h2 h3 =>
     intro K f md hst
     simp only [Valid] at hst
-    exact leaf_step e h (.maskedNot v m) a 3 K f md OP_MASKED_NOT_LITERAL hst.1 hst.2.1 hst.2.2 h1 (.inr (.inr (.inr (.inl rfl))))
-      (by simp [sizeOfInstr, OP_LITERAL, OP_NOT_LITERAL, OP_MASKED_LITERAL, OP_MASKED_NOT_LITERAL]) (by omega)
+    exact leaf_step e (.maskedNot v m) a 3 K f md OP_MASKED_NOT_LITERAL hst.1 hst.2.1 hst.2.2 h1 (by decide) (by unfold isCtl; decide) (by decide) (by decide) (by decide) (by omega)
       (fun ip rc md => by simp [lang]) (fun bm hc => consume_maskedNot h (by rw [hst.1]; exact h1) (by rw [hst.1]; exact h2) (by rw [hst.1]; exact h3) hc)
   | @any a h1 =>
     intro K f md hst
     simp only [Valid] at hst
-    exact leaf_step e h .any a 1 K f md OP_ANY hst.1 hst.2.1 hst.2.2 h1 (.inr (.inr (.inr (.inr rfl))))
-      (by simp [sizeOfInstr, OP_LITERAL, OP_NOT_LITERAL, OP_MASKED_LITERAL, OP_MASKED_NOT_LITERAL, OP_ANY, OP_CLASS]) (by omega)
+    exact leaf_step e .any a 1 K f md OP_ANY hst.1 hst.2.1 hst.2.2 h1 (by decide) (by unfold isCtl; decide) (by decide) (by decide) (by decide) (by omega)
       (fun ip rc md => by simp [lang]) (fun bm hc => consume_any h (by rw [hst.1]; exact h1) hc)
   | @jump a lo hi g h1 h2 h3 h4 =>
     intro K f md hst
@@ -582,8 +594,8 @@ theorem seg_step (e : Env) (h : FwdByte e) {r : Re} {a b : Nat} (hs : Seg e.code
       · exact ⟨.inr h1, hly _ _ _ (by have := s2.pos; rw [h1.1]; omega)⟩
     rcases hst with hst | hst
     · have hlt := (valid_range s1 hst).2
-      obtain ⟨e1, e2, e3, e4⟩ := ih1 (lang (specFlags e.fl) e.buf y m K m (-1) .run) f md hst
-      refine ⟨?_, ?_, ?_, e4⟩
+      obtain ⟨e1, e2, e3, e4, e5⟩ := ih1 (lang (specFlags e.fl) e.buf y m K m (-1) .run) f md hst
+      refine ⟨?_, ?_, ?_, e4, ?_⟩
       · intro g hg hmw
         obtain ⟨g1, g2⟩ := e1 g hg hmw
         obtain ⟨l1, l2⟩ := liftx g .run g1
@@ -602,9 +614,15 @@ theorem seg_step (e : Env) (h : FwdByte e) {r : Re} {a b : Nat} (hs : Seg e.code
         refine ⟨l1, ?_⟩
         intro q' hq
         rw [hlx _ _ _ hlt]; rw [l2] at hq; exact g2 q' hq
+      · intro bm hz1 hz2
+        obtain ⟨g1, g2⟩ := e5 bm hz1 hz2
+        obtain ⟨l1, l2⟩ := liftx { f with ip := f.ip + 1 } .run g1
+        refine ⟨l1, ?_⟩
+        intro q' hq
+        rw [hlx _ _ _ hlt]; rw [l2] at hq; exact g2 q' hq
     · have hge := (valid_range s2 hst).1
-      obtain ⟨e1, e2, e3, e4⟩ := ih2 K f md hst
-      refine ⟨?_, ?_, ?_, e4⟩
+      obtain ⟨e1, e2, e3, e4, e5⟩ := ih2 K f md hst
+      refine ⟨?_, ?_, ?_, e4, ?_⟩
       · intro g hg hmw
         obtain ⟨g1, g2⟩ := e1 g hg hmw
         obtain ⟨l1, l2⟩ := lifty g .run g1
@@ -620,6 +638,12 @@ theorem seg_step (e : Env) (h : FwdByte e) {r : Re} {a b : Nat} (hs : Seg e.code
       · intro bm hc1 hc2 hc3 hc4
         obtain ⟨g1, g2⟩ := e3 bm hc1 hc2 hc3 hc4
         obtain ⟨l1, l2⟩ := lifty _ _ g1
+        refine ⟨l1, ?_⟩
+        intro q' hq
+        rw [hly _ _ _ hge]; rw [l2] at hq; exact g2 q' hq
+      · intro bm hz1 hz2
+        obtain ⟨g1, g2⟩ := e5 bm hz1 hz2
+        obtain ⟨l1, l2⟩ := lifty { f with ip := f.ip + 1 } .run g1
         refine ⟨l1, ?_⟩
         intro q' hq
         rw [hly _ _ _ hge]; rw [l2] at hq; exact g2 q' hq
@@ -664,9 +688,9 @@ theorem seg_step (e : Env) (h : FwdByte e) {r : Re} {a b : Nat} (hs : Seg e.code
       have hop : u8 e.code f.ip = OP_SPLIT_A := by rw [hip]; exact o1
       have hnany : ¬ (u8 e.code f.ip = OP_REPEAT_ANY_GREEDY ∨ u8 e.code f.ip = OP_REPEAT_ANY_UNGREEDY) := by
         rw [hop]; simp [OP_SPLIT_A, OP_REPEAT_ANY_GREEDY, OP_REPEAT_ANY_UNGREEDY]
-      refine ⟨?_, ?_, ?_, fun _ => .inl hop⟩
+      refine ⟨?_, ?_, ?_, by rw [hop]; decide, fun bm _ hz => by rw [hop, zw_split_false e bm (.inl rfl)] at hz; simp at hz⟩
       · intro g hg _
-        rcases estep_split hg hop with rfl | rfl
+        rcases estep_split hg (.inl hop) with rfl | rfl
         · obtain ⟨l1, l2⟩ := liftx { f with ip := f.ip + 4 } .run (.inl (by simp only; rw [hip, hrc]; exact valid_first s1))
           refine ⟨l1, ?_⟩
           intro q q' hq
@@ -689,8 +713,8 @@ theorem seg_step (e : Env) (h : FwdByte e) {r : Re} {a b : Nat} (hs : Seg e.code
         simp [isConsuming, OP_SPLIT_A, OP_ANY, OP_REPEAT_ANY_GREEDY, OP_REPEAT_ANY_UNGREEDY, OP_LITERAL, OP_NOT_LITERAL, OP_MASKED_LITERAL,
           OP_MASKED_NOT_LITERAL, OP_CLASS, OP_WORD_CHAR, OP_NON_WORD_CHAR, OP_SPACE, OP_NON_SPACE, OP_DIGIT, OP_NON_DIGIT] at hc
     · have r := valid_range s1 hst
-      obtain ⟨e1, e2, e3, e4⟩ := ih1 K f md hst
-      refine ⟨?_, ?_, ?_, e4⟩
+      obtain ⟨e1, e2, e3, e4, e5⟩ := ih1 K f md hst
+      refine ⟨?_, ?_, ?_, e4, ?_⟩
       · intro g hg hmw
         obtain ⟨g1, g2⟩ := e1 g hg hmw
         obtain ⟨l1, l2⟩ := liftx g .run g1
@@ -709,12 +733,18 @@ theorem seg_step (e : Env) (h : FwdByte e) {r : Re} {a b : Nat} (hs : Seg e.code
         refine ⟨l1, ?_⟩
         intro q' hq
         rw [hlx _ _ _ (by omega) r.2]; rw [l2] at hq; exact g2 q' hq
+      · intro bm hz1 hz2
+        obtain ⟨g1, g2⟩ := e5 bm hz1 hz2
+        obtain ⟨l1, l2⟩ := liftx { f with ip := f.ip + 1 } .run g1
+        refine ⟨l1, ?_⟩
+        intro q' hq
+        rw [hlx _ _ _ (by omega) r.2]; rw [l2] at hq; exact g2 q' hq
     · -- the jump after the first alternative
       obtain ⟨hip, hrc, hmd⟩ := hst
       have hop : u8 e.code f.ip = OP_JUMP := by rw [hip]; exact o3
       have hnany : ¬ (u8 e.code f.ip = OP_REPEAT_ANY_GREEDY ∨ u8 e.code f.ip = OP_REPEAT_ANY_UNGREEDY) := by
         rw [hop]; simp [OP_JUMP, OP_REPEAT_ANY_GREEDY, OP_REPEAT_ANY_UNGREEDY]
-      refine ⟨?_, ?_, ?_, fun _ => .inr hop⟩
+      refine ⟨?_, ?_, ?_, by rw [hop]; decide, fun bm _ hz => by rw [hop, zw_split_false e bm (.inr (.inr rfl))] at hz; simp at hz⟩
       · intro g hg _
         rw [estep_jump hg hop]
         refine ⟨.inr ⟨by simp only; rw [hip, o4], hrc, rfl⟩, ?_⟩
@@ -729,8 +759,8 @@ theorem seg_step (e : Env) (h : FwdByte e) {r : Re} {a b : Nat} (hs : Seg e.code
         simp [isConsuming, OP_JUMP, OP_ANY, OP_REPEAT_ANY_GREEDY, OP_REPEAT_ANY_UNGREEDY, OP_LITERAL, OP_NOT_LITERAL, OP_MASKED_LITERAL,
           OP_MASKED_NOT_LITERAL, OP_CLASS, OP_WORD_CHAR, OP_NON_WORD_CHAR, OP_SPACE, OP_NON_SPACE, OP_DIGIT, OP_NON_DIGIT] at hc
     · have r := valid_range s2 hst
-      obtain ⟨e1, e2, e3, e4⟩ := ih2 K f md hst
-      refine ⟨?_, ?_, ?_, e4⟩
+      obtain ⟨e1, e2, e3, e4, e5⟩ := ih2 K f md hst
+      refine ⟨?_, ?_, ?_, e4, ?_⟩
       · intro g hg hmw
         obtain ⟨g1, g2⟩ := e1 g hg hmw
         obtain ⟨l1, l2⟩ := lifty g .run g1
@@ -746,6 +776,12 @@ theorem seg_step (e : Env) (h : FwdByte e) {r : Re} {a b : Nat} (hs : Seg e.code
       · intro bm hc1 hc2 hc3 hc4
         obtain ⟨g1, g2⟩ := e3 bm hc1 hc2 hc3 hc4
         obtain ⟨l1, l2⟩ := lifty _ _ g1
+        refine ⟨l1, ?_⟩
+        intro q' hq
+        rw [hly _ _ _ (by omega)]; rw [l2] at hq; exact g2 q' hq
+      · intro bm hz1 hz2
+        obtain ⟨g1, g2⟩ := e5 bm hz1 hz2
+        obtain ⟨l1, l2⟩ := lifty { f with ip := f.ip + 1 } .run g1
         refine ⟨l1, ?_⟩
         intro q' hq
         rw [hly _ _ _ (by omega)]; rw [l2] at hq; exact g2 q' hq
@@ -785,13 +821,8 @@ theorem valid_run {code : Code} {r : Re} {a b : Nat} (hs : Seg code r a b) {ip :
 
 theorem start_not_match (e : Env) (h : FwdByte e) {r : Re} {n : Nat} (hs : Seg e.code r 0 n) {f : Fiber} {m : Mode}
     (hst : Valid r 0 f.ip f.rc m) : u8 e.code f.ip ≠ OP_MATCH := by
-  obtain ⟨_, _, _, e4⟩ := seg_step e h hs Keps f m hst
-  intro hm
-  by_cases hc : isConsuming (u8 e.code f.ip) = true
-  · rw [hm] at hc
-    simp [isConsuming, OP_MATCH, OP_ANY, OP_REPEAT_ANY_GREEDY, OP_REPEAT_ANY_UNGREEDY, OP_LITERAL, OP_NOT_LITERAL, OP_MASKED_LITERAL,
-      OP_MASKED_NOT_LITERAL, OP_CLASS, OP_WORD_CHAR, OP_NON_WORD_CHAR, OP_SPACE, OP_NON_SPACE, OP_DIGIT, OP_NON_DIGIT] at hc
-  · rcases e4 (by simpa using hc) with h1 | h1 <;> rw [hm] at h1 <;> simp [OP_MATCH, OP_SPLIT_A, OP_JUMP] at h1
+  obtain ⟨_, _, _, e4, _⟩ := seg_step e h hs Keps f m hst
+  exact e4
 
 /-- one call of sync keeps the invariant -/
 theorem sstar_lang (e : Env) (h : FwdByte e) {r : Re} {n : Nat} (hs : Seg e.code r 0 n) (hmatch : u8 e.code n = OP_MATCH)
@@ -810,7 +841,7 @@ theorem sstar_lang (e : Env) (h : FwdByte e) {r : Re} {n : Nat} (hs : Seg e.code
   | @eps f g1 h1 m1 hstep _ ih =>
     intro m hmw hv
     rcases hv with hv | hv
-    · obtain ⟨e1, _, _, _⟩ := seg_step e h hs Keps f m hv
+    · obtain ⟨e1, _, _, _, _⟩ := seg_step e h hs Keps f m hv
       obtain ⟨g1v, g1l⟩ := e1 g1 hstep hmw
       obtain ⟨r1, r2⟩ := ih .run (by simp) g1v
       exact ⟨r1, fun q q' hq => g1l q q' (r2 q q' hq)⟩
@@ -818,7 +849,7 @@ theorem sstar_lang (e : Env) (h : FwdByte e) {r : Re} {n : Nat} (hs : Seg e.code
   | @cont f g1 h1 m1 hstep _ ih =>
     intro m hmw hv
     rcases hv with hv | hv
-    · obtain ⟨_, e2, _, _⟩ := seg_step e h hs Keps f m hv
+    · obtain ⟨_, e2, _, _, _⟩ := seg_step e h hs Keps f m hv
       obtain ⟨g1v, g1l⟩ := e2 g1 false hstep hmw
       obtain ⟨r1, r2⟩ := ih .run (by simp) (by simpa [modeAfter] using g1v)
       refine ⟨r1, fun q q' hq => g1l q q' ?_⟩
@@ -827,7 +858,7 @@ theorem sstar_lang (e : Env) (h : FwdByte e) {r : Re} {n : Nat} (hs : Seg e.code
   | @spin f g1 hstep =>
     intro m hmw hv
     rcases hv with hv | hv
-    · obtain ⟨_, e2, _, _⟩ := seg_step e h hs Keps f m hv
+    · obtain ⟨_, e2, _, _, _⟩ := seg_step e h hs Keps f m hv
       obtain ⟨g1v, g1l⟩ := e2 g1 true hstep hmw
       exact ⟨by simpa [modeAfter] using g1v, fun q q' hq => g1l q q' (by simpa [modeAfter] using hq)⟩
     · exact absurd hstep (fun hh => no_astep hh (match_not_any (by rw [hv.1]; exact hmatch)))
@@ -847,17 +878,16 @@ theorem reach_lang (e : Env) (h : FwdByte e) {r : Re} {n : Nat} (hs : Seg e.code
     obtain ⟨r1, r2⟩ := sstar_lang e h hs hmatch hss m hmw hpos
     exact ⟨r1, fun q' hq => hl q' (r2 _ q' hq)⟩
   | @zw f bm _ hnc hnm hz ih =>
-    obtain ⟨hpos, _⟩ := ih
-    exfalso
+    obtain ⟨hpos, hl⟩ := ih
     rcases hpos with hst | hend
-    · obtain ⟨_, _, _, e4⟩ := seg_step e h hs Keps f .run hst
-      rcases e4 hnc with h1 | h1 <;> rw [h1] at hz <;>
-        simp [zeroWidthOk, OP_SPLIT_A, OP_JUMP, OP_WORD_BOUNDARY, OP_NON_WORD_BOUNDARY, OP_MATCH_AT_START, OP_MATCH_AT_END] at hz
-    · exact hnm (by rw [hend.1]; exact hmatch)
+    · obtain ⟨_, _, _, _, e5⟩ := seg_step e h hs Keps f .run hst
+      obtain ⟨g1, g2⟩ := e5 bm hnc hz
+      exact ⟨g1, fun q' hq => hl q' (g2 q' hq)⟩
+    · exact absurd (by rw [hend.1]; exact hmatch) hnm
   | @cons f m bm _ hc hok hany hnp ih =>
     obtain ⟨hpos, hl⟩ := ih
     rcases hpos with hst | hend
-    · obtain ⟨_, _, e3, _⟩ := seg_step e h hs Keps f m hst
+    · obtain ⟨_, _, e3, _, _⟩ := seg_step e h hs Keps f m hst
       obtain ⟨g1, g2⟩ := e3 bm hc hok hany hnp
       refine ⟨g1, ?_⟩
       intro q' hq
